@@ -315,9 +315,9 @@ def parseRedirect (s : Str) : Str × Int :=
 
 /-- the loop over `redirect_filters`: first strictly greatest priority among unexcepted options -/
 def chooseRedirect (matched : List Rule) : Option Str :=
-  let exceptions := (matched.filter Rule.isException).filterMap (·.modifier)
+  let exceptions := ((matched.filter Rule.isException).filterMap (·.modifier)).map (fun m => (parseRedirect m).1)
   let cands := ((matched.filter (fun r => !r.isException)).filterMap (·.modifier)).filter
-    (fun m => !exceptions.contains m)
+    (fun m => !exceptions.contains (parseRedirect m).1)
   (cands.foldl (fun (acc : Option (Str × Int)) m =>
     let (res, p) := parseRedirect m
     match acc with
